@@ -97,6 +97,9 @@ func (j *JsonQueryVisitorImpl) VisitParenExp(ctx *ParenExpContext) interface{} {
 
 func (j *JsonQueryVisitorImpl) VisitLogicalExp(ctx *LogicalExpContext) interface{} {
 	left := ctx.Query(0).Accept(j).(bool)
+	if j.hasErr() {
+		return false
+	}
 	op := ctx.LOGICAL_OPERATOR().GetText()
 	if op == "or" {
 		if left {
